@@ -27,7 +27,7 @@ import (
 
 const c05Rule = "state = map of 0-12 keys (nibble-colliding alphabet, derived prefix/extension keys, long keys) with values of 0..100 bytes, V0 or V1, " +
 	"persisted with WriteDirty; honest proof for a drawn subset of present keys (completeness: Generate ok, Verify(k, model[k]) and Verify(k, empty) nil); " +
-	"then up to 8 adversarial variants of the proof (drop / duplicate / reorder / foreign nodes of a neighbouring state / byte flip / truncation / random and special byte strings / value pre-images / all nodes) " +
+	"then up to 8 adversarial variants of the proof (drop / duplicate / reorder / foreign nodes of a neighbouring state / byte flip / truncation / random and special byte strings / value pre-images / hash of a stored-by-hash value without its trailing zero bytes (in a quarter of the V1 states one value hash ends in a zero byte) / all nodes) " +
 	"x claims (present key with true, wrong, hash-of-value, empty value; absent keys derived from present keys or fresh, with empty and borrowed values): " +
 	"Verify == nil => claim true in the map. non-trivial = the map has >= 2 keys sharing a nibble prefix and (a V1 value > 32 bytes is among the proven keys or >= 1 variant differs from the honest proof as a multiset) " +
 	"and >= 1 false claim was evaluated; distinct by (version, map, proven keys, variant ops, claims)"
@@ -101,6 +101,51 @@ func c05Build(t fataler, model kit.OrdMap, v1 bool) *c05State {
 		t.Fatalf("harness: WriteDirty: %v", err)
 	}
 	return st
+}
+
+// c05TrimmedHash returns BLAKE2b-256(v) without its trailing zero bytes (at
+// least one byte is cut): a byte string shorter than a hash that a proof
+// database keyed by anything but the digest of its items might file under the
+// value's hash.
+func c05TrimmedHash(v []byte) []byte {
+	h := kit.Blake256(v)
+	n := 31
+	for n > 0 && h[n-1] == 0 && h[n] == 0 {
+		n--
+	}
+	return append([]byte{}, h[:n]...)
+}
+
+// c05ZeroTailKeys: keys whose value is stored by hash (V1, > 32 bytes) and
+// whose value hash ends in a zero byte.
+func c05ZeroTailKeys(st *c05State) (out []string) {
+	if !st.v1 {
+		return nil
+	}
+	for _, k := range st.model.Keys() {
+		if v := st.model[k]; len(v) > 32 {
+			if h := kit.Blake256(v); h[31] == 0 {
+				out = append(out, k)
+			}
+		}
+	}
+	return out
+}
+
+// c05ZeroTailValue returns a 40-byte value derived from seed whose BLAKE2b-256
+// hash ends in a zero byte (about 256 trials).
+func c05ZeroTailValue(seed byte) []byte {
+	v := make([]byte, 40)
+	for i := range v {
+		v[i] = seed + byte(i*3)
+	}
+	for c := 0; c < 1<<20; c++ {
+		v[36], v[37], v[38] = byte(c), byte(c>>8), byte(c>>16)
+		if h := kit.Blake256(v); h[31] == 0 {
+			return v
+		}
+	}
+	return v
 }
 
 // claimTrue is the oracle: what a nil result of Verify(proof, root, k, v) asserts.
@@ -347,7 +392,7 @@ func genVariant(t *rapid.T, st *c05State, honest [][]byte, foreign [][]byte, nbP
 	nops := rapid.IntRange(1, 3).Draw(t, "nops")
 	for o := 0; o < nops; o++ {
 		nbefore := len(ops)
-		op := rapid.SampledFrom([]string{"drop", "drop", "dup", "reorder", "foreign", "foreign", "foreignproof", "foreignproof", "flip", "trunc", "random", "special", "preimage", "allnodes", "hashval"}).Draw(t, "vop")
+		op := rapid.SampledFrom([]string{"drop", "drop", "dup", "reorder", "foreign", "foreign", "foreignproof", "foreignproof", "flip", "trunc", "random", "special", "preimage", "allnodes", "hashval", "hashprefix"}).Draw(t, "vop")
 		switch op {
 		case "drop":
 			if len(p) == 0 {
@@ -459,6 +504,31 @@ func genVariant(t *rapid.T, st *c05State, honest [][]byte, foreign [][]byte, nbP
 			h := kit.Blake256(st.model[k])
 			p = append(p, h[:])
 			ops = append(ops, fmt.Sprintf("hashval(%x)", k))
+		case "hashprefix":
+			// a foreign item shorter than 32 bytes that equals the hash of a hashed value
+			// without its trailing zero bytes, with or without the genuine value
+			ks := c05ZeroTailKeys(st)
+			if len(ks) == 0 {
+				for _, k := range st.model.Keys() {
+					if st.v1 && len(st.model[k]) > 32 {
+						ks = append(ks, k)
+					}
+				}
+			}
+			if len(ks) == 0 {
+				continue
+			}
+			k := ks[rapid.IntRange(0, len(ks)-1).Draw(t, "hpk")]
+			if rapid.Bool().Draw(t, "hpreplace") {
+				for i := range p {
+					if bytes.Equal(p[i], st.model[k]) {
+						p = append(p[:i], p[i+1:]...)
+						break
+					}
+				}
+			}
+			p = append(p, c05TrimmedHash(st.model[k]))
+			ops = append(ops, fmt.Sprintf("hashprefix(%x)", k))
 		case "allnodes":
 			p = append(p, dbBlobs(st.db)...)
 			ops = append(ops, "allnodes")
@@ -498,12 +568,18 @@ func genClaims(t *rapid.T, st *c05State, nb *c05State, proven [][]byte) []claim 
 			out = append(out, claim{kind: "foreign-entry", k: []byte(k), v: v})
 			continue
 		}
-		kind := rapid.SampledFrom([]string{"true", "wrong", "wrong", "hash-as-value", "exists", "absent-mut", "absent-mut", "absent-mut", "absent-fresh"}).Draw(t, "ckind")
+		kind := rapid.SampledFrom([]string{"true", "wrong", "wrong", "hash-as-value", "hash-prefix-as-value", "exists", "absent-mut", "absent-mut", "absent-mut", "absent-fresh"}).Draw(t, "ckind")
 		if len(keys) == 0 && kind != "absent-fresh" {
 			kind = "absent-fresh"
 		}
 		var k []byte
 		switch kind {
+		case "hash-prefix-as-value":
+			if zk := c05ZeroTailKeys(st); len(zk) > 0 {
+				k = []byte(zk[rapid.IntRange(0, len(zk)-1).Draw(t, "zk")])
+			} else {
+				k = []byte(keys[rapid.IntRange(0, len(keys)-1).Draw(t, "ck")])
+			}
 		case "true", "wrong", "hash-as-value", "exists":
 			// prefer keys the honest proof covers
 			if len(proven) > 0 && rapid.IntRange(0, 3).Draw(t, "fromproven") > 0 {
@@ -532,6 +608,8 @@ func genClaims(t *rapid.T, st *c05State, nb *c05State, proven [][]byte) []claim 
 		case "hash-as-value":
 			h := kit.Blake256(mv)
 			v = h[:]
+		case "hash-prefix-as-value":
+			v = c05TrimmedHash(mv)
 		case "wrong":
 			switch rapid.IntRange(0, 4).Draw(t, "wkind") {
 			case 0:
@@ -618,6 +696,11 @@ func TestC05Proofs(t *testing.T) {
 	rapid.Check(t, func(t *rapid.T) {
 		v1 := rapid.Bool().Draw(t, "v1")
 		model := genModel(t)
+		if ks := model.Keys(); v1 && len(ks) > 0 && rapid.IntRange(0, 3).Draw(t, "zerotail") == 0 {
+			// one stored-by-hash value whose hash ends in a zero byte
+			model[ks[rapid.IntRange(0, len(ks)-1).Draw(t, "ztk")]] = c05ZeroTailValue(rapid.Byte().Draw(t, "ztseed"))
+			kit.Label("value-hash-ends-in-zero-byte")
+		}
 		c05Property(t, model, v1)
 	})
 }
